@@ -46,12 +46,16 @@ def cell_tree(slot):
 
 
 def z_to_cells(t, flip):
-    """the generator's z-identifiers denote memory cells: z8 -> c8, z32 -> c32 / k32 alternately"""
+    """the generator's z-identifiers denote reads of the address menu: z8 -> the cell c8, or an 8-bit read at the
+    address of the 32-bit cells c32 / k32 (narrower than the bound cell); z32 -> c32 / k32, or a 32-bit read at the
+    address of the 8-bit cell c8 (wider than the bound cell), in rotation"""
     if t['k'] == 'id' and t['n'].startswith('z'):
+        flip[0] = (flip[0] + 1) % 6
         if t['w'] == 8:
-            return cell_tree('c8')
-        flip[0] ^= 1
-        return cell_tree('c32' if flip[0] else 'k32')
+            c = cell_tree(['c8', 'c32', 'c8', 'k32', 'c8', 'c32'][flip[0]])
+            return dict(c, w=8)
+        c = cell_tree(['c32', 'k32', 'c32', 'c8', 'k32', 'c32'][flip[0]])
+        return dict(c, w=32)
     if 'a' in t:
         t = dict(t, a=[z_to_cells(x, flip) for x in t['a']])
     return t
@@ -120,7 +124,7 @@ def _eval(case):
             if not c.startswith('const'):
                 leaves_ok = False
         if x['k'] == 'mem':
-            slot = [s for s in CELL if cell_tree(s) == x]
+            slot = [s for s in CELL if cell_tree(s)['a'] == x['a'] and CELL[s][2] >= x['w']]
             if not slot or not st[SLOTS.index(slot[0])].startswith('const'):
                 leaves_ok = False
             return
